@@ -407,6 +407,7 @@ func init() {
 		}
 		c.Programs += nSets
 		partialMappings(c, bin, &fails)
+		externalPackages(c, bin, tmp, &fails)
 		c.FactsVerdict(fails > 0)
 		knownMultiFileFindings(c)
 	})
@@ -440,4 +441,114 @@ func diffFiles(a, b map[string]string) string {
 	}
 	sort.Strings(d)
 	return strings.Join(d, ", ")
+}
+
+// externalPackages: schemas whose types live in HAND-WRITTEN packages (mapped with --schema-package and no
+// --schema-output), several of them, with import paths that share their last element (core/v1, apps/v1), differ only in
+// the middle, or are nested in each other.  Every generated file that refers to such a type imports exactly the package
+// its schema is mapped to, and the generated package builds against stubs of the hand-written ones.
+var k39Reported = map[string]bool{}
+
+func externalPackages(c *engine.Ctx, bin, tmp string, fails *int) {
+	for li, paths := range [][]string{
+		{"example.com/m/core/v1", "example.com/m/apps/v1"},
+		{"example.com/m/apps/v1", "example.com/m/core/v1", "example.com/m/batch/v1"},
+		{"example.com/m/a/model", "example.com/m/b/model"},
+		{"example.com/m/ext", "example.com/m/ext/ext"},
+		{"example.com/m/x/api", "example.com/m/y/api", "example.com/m/api"},
+	} {
+		for _, sameOut := range []bool{false, true} {
+			wd := filepath.Join(tmp, fmt.Sprintf("ext%d-%v", li, sameOut))
+			args := []string{"-p", "example.com/m/gen", "-o", "gen/main.go", "--tags", "json"}
+			var inputs []string
+			files := map[string]string{}
+			for i, pth := range paths {
+				ext := fmt.Sprintf("ext%d", i)
+				extID, useID := "urn:"+ext, fmt.Sprintf("urn:use%d", i)
+				files["schemas/"+ext+".json"] = string(core.MustJSON(M{"$id": extID, "title": "Thing", "type": "object", "properties": M{"name": M{"type": "string"}}}))
+				files[fmt.Sprintf("schemas/use%d.json", i)] = string(core.MustJSON(M{"$id": useID, "type": "object", "properties": M{"thing": M{"$ref": ext + ".json"}}}))
+				out := fmt.Sprintf("gen/use%d.go", i)
+				if sameOut {
+					out = "gen/main.go"
+				}
+				args = append(args, "--schema-package", extID+"="+pth, "--schema-root-type", extID+"=Thing"+fmt.Sprint(i),
+					"--schema-package", useID+"=example.com/m/gen", "--schema-output", useID+"="+out, "--schema-root-type", useID+"=Use"+fmt.Sprint(i))
+				inputs = append(inputs, fmt.Sprintf("schemas/use%d.json", i))
+				// the hand-written package
+				dir := strings.TrimPrefix(pth, "example.com/m/")
+				files[dir+"/stub.go"] = files[dir+"/stub.go"] + ""
+			}
+			for i, pth := range paths {
+				dir := strings.TrimPrefix(pth, "example.com/m/")
+				if files[dir+"/stub.go"] == "" {
+					files[dir+"/stub.go"] = "package " + pth[strings.LastIndex(pth, "/")+1:] + "\n"
+				}
+				files[dir+"/stub.go"] += fmt.Sprintf("\ntype Thing%d struct{ Name *string }\n", i)
+			}
+			files["go.mod"] = "module example.com/m\n\ngo 1.23.0\n"
+			for name, data := range files {
+				fn := filepath.Join(wd, name)
+				_ = os.MkdirAll(filepath.Dir(fn), 0o755)
+				_ = os.WriteFile(fn, []byte(data), 0o644)
+			}
+			res := runCLI(bin, wd, "", append(args, inputs...)...)
+			c.Eval(fmt.Sprintf("external-packages|%d|sameOut=%v|exit=%d", li, sameOut, res.Exit))
+			c.Programs++
+			replay := M{"kind": "cli-multi", "files": files, "flags": args, "inputs": inputs, "stderr": clip(res.Stderr, 400)}
+			if res.Exit != 0 {
+				*fails++
+				if *fails <= 3 {
+					c.Fail("oracle", "schemas mapped to hand-written packages: the invocation fails: "+clip(res.Stderr, 200), replay, false)
+				}
+				continue
+			}
+			// listed finding K39: ONE generated file that refers to types of two packages with the same name (last path
+			// element) imports both under that name; it cannot compile.  Tolerated only as exactly that failure.
+			names := map[string]int{}
+			for _, pth := range paths {
+				names[pth[strings.LastIndex(pth, "/")+1:]]++
+			}
+			collide := false
+			for _, k := range names {
+				collide = collide || (sameOut && k > 1)
+			}
+			bad := ""
+			for i, pth := range paths {
+				out := fmt.Sprintf("gen/use%d.go", i)
+				if sameOut {
+					out = "gen/main.go"
+				}
+				if !strings.Contains(res.Files[out], `"`+pth+`"`) {
+					bad = fmt.Sprintf("%s refers to a type of %s but does not import it", out, pth)
+				}
+			}
+			if bad == "" {
+				cmd := exec.Command("go", "build", "./gen/...")
+				cmd.Dir = wd
+				cmd.Env = core.GoEnv()
+				out, err := cmd.CombinedOutput()
+				switch {
+				case collide && err != nil && strings.Contains(string(out), "redeclared in this block") && !strings.Contains(string(out), "Thing0 redeclared") && !strings.Contains(string(out), "Use0 redeclared"):
+					c.Count("c20", "external packages: K39 region (one file, two packages of one name)")
+					for _, k := range c.KnownFor() {
+						if strings.HasPrefix(k.ID, "K39") && !k39Reported[c.ID] {
+							k39Reported[c.ID] = true
+							c.ReportKnown(k)
+						}
+					}
+				case collide && err == nil:
+					c.Note("known finding K39 no longer reproduces: one file importing two packages of one name builds")
+				case err != nil:
+					bad = "the generated package does not build against the hand-written ones: " + clip(string(out), 300)
+				}
+			}
+			if bad != "" {
+				*fails++
+				if *fails <= 3 {
+					replay["outputs"] = res.Files
+					c.Fail("oracle", bad, replay, false)
+				}
+			}
+		}
+	}
 }
